@@ -253,7 +253,8 @@ def diff_vars(a, b, depth=0):
         if k in IGNORE:
             continue
         if k not in vb:
-            out.append(f'{type(a).__name__}.{k} missing in the copy')
+            if not k.startswith('_'):           # private, possibly lazily filled state is not a configuration parameter
+                out.append(f'{type(a).__name__}.{k} missing in the copy')
         elif not same(v, vb[k], depth):
             out.append(f'{type(a).__name__}.{k}: {v!r} -> {vb[k]!r}')
     return out
